@@ -1283,7 +1283,9 @@ class HexAssembly(Assembly):
         ValueError
             If rotation is not divisible by pi / 3.
         """
-        if math.isclose(rad % (math.pi / 3), 0, abs_tol=1e-12):
+        # signed remainder: the float remainder of a multiple of 60 degrees is as often just
+        # below pi / 3 (e.g. for -pi) as it is just above zero
+        if math.isclose(math.remainder(rad, math.pi / 3), 0, abs_tol=1e-12):
             return super().rotate(rad)
 
         msg = (
